@@ -257,3 +257,101 @@ func closedSocketAdoptsNoTransport(c *Ctx, rule string) {
 	}
 	c.Ob(rule, "eio.Server.maybeUpgrade/watcher-sees-the-close", mu.Pos(), watch, "the goroutine that waits for the upgrade to finish or time out does not wait for the socket's closeChan: a probing transport whose session closes stays open until the upgrade timeout — or for ever once `done` was closed")
 }
+
+// F58 (C16-D7): caller-supplied options are not dereferenced raw while a non-deferred lock is held.
+func callerOptionsNormalisedBeforeLock(c *Ctx, rule string) {
+	p := c.P
+	n := 0
+	for _, fn := range p.SrcFuncs() {
+		if fn.Pkg == nil || fn.Parent() != nil {
+			continue
+		}
+		if sh, _ := shortOf(fn.Pkg.Pkg.Path()); sh != "adapter" {
+			continue
+		}
+		var li *LockInfo
+		for _, b := range fn.Blocks {
+			for _, in := range b.Instrs {
+				fa, ok := in.(*ssa.FieldAddr)
+				if !ok {
+					continue
+				}
+				par, isPar := fa.X.(*ssa.Parameter)
+				if !isPar || !strings.HasSuffix(par.Type().String(), "adapter.BroadcastOptions") {
+					continue
+				}
+				if li == nil {
+					li = LocksInherit(fn)
+				}
+				held := false
+				for l := range li.Held(in) {
+					if _, inh := li.Entry[l]; !li.Deferred[l] && !inh {
+						held = true
+					}
+				}
+				if !held {
+					continue
+				}
+				n++
+				c.Ob(rule, fmt.Sprintf("%s/raw-options-under-lock#%d", FuncName(fn), n), in.Pos(), false, "a field of the caller's *BroadcastOptions ("+Term(fa)+") is read while a mutex is held by a non-deferred Lock: opts, opts.Rooms and opts.Except can be nil (Sockets(nil), a BroadcastOptions literal) — the nil dereference / nil-set method call panics with the mutex held; in a handler the library recovers the panic and the adapter stays locked for ever")
+			}
+		}
+	}
+	if n == 0 {
+		c.Ob(rule, "adapter/options-normalised-before-lock", p.Fn("adapter", "inMemoryAdapter.apply").Pos(), true, "no raw caller options are dereferenced under a non-deferred lock")
+	}
+	// and the normaliser is applied where the lock is taken by hand
+	ap := p.Fn("adapter", "inMemoryAdapter.apply")
+	norm := CallsTo(Calls(ap), `adapter\.normalizeBroadcastOptions`)
+	locks := findInstrs(ap, func(in ssa.Instruction) bool { op, ok := lockOpOf(in); return ok && op.acq })
+	okN := len(norm) >= 1 && len(locks) >= 1
+	for _, l := range locks {
+		if len(norm) >= 1 && !Dominates(norm[0].Instr, l) {
+			okN = false
+		}
+	}
+	c.Ob(rule, "adapter.inMemoryAdapter.apply/normalises-first", ap.Pos(), okN, "apply must make nil options and nil sets empty before it locks a.mu")
+}
+
+// F59 (C16-D8): nothing is stored through a configuration pointer the caller shares between connections.
+func sharedDialOptionsNotWritten(c *Ctx, rule string) {
+	p := c.P
+	n := 0
+	for _, fn := range p.SrcFuncs() {
+		if fn.Pkg == nil {
+			continue
+		}
+		if sh, _ := shortOf(fn.Pkg.Pkg.Path()); sh != "websocket" && sh != "polling" && sh != "webtransport" && sh != "eio" {
+			continue
+		}
+		for _, b := range fn.Blocks {
+			for _, in := range b.Instrs {
+				st, ok := in.(*ssa.Store)
+				if !ok {
+					continue
+				}
+				fa, ok := st.Addr.(*ssa.FieldAddr)
+				if !ok {
+					continue
+				}
+				// base: a pointer loaded from a field of the receiver / a config whose type comes from another module
+				ld, ok := fa.X.(*ssa.UnOp)
+				if !ok {
+					continue
+				}
+				if _, isF := ld.X.(*ssa.FieldAddr); !isF {
+					continue
+				}
+				ts := deref(fa.X.Type()).String()
+				if !strings.HasSuffix(ts, "DialOptions") && !strings.HasSuffix(ts, "AcceptOptions") && !strings.HasSuffix(ts, "ClientConfig") && !strings.HasSuffix(ts, "ServerConfig") {
+					continue
+				}
+				n++
+				c.Ob(rule, fmt.Sprintf("%s/store-through-shared-config#%d", FuncName(fn), n), in.Pos(), false, "a field of "+ts+" is written through "+Term(fa.X)+": that value belongs to the caller and is shared by every transport and connection built from the same configuration — concurrent connects race on it, and the caller's settings are replaced")
+			}
+		}
+	}
+	if n == 0 {
+		c.Ob(rule, "transports/no-store-through-shared-config", p.Fn("websocket", "ClientTransport.Handshake").Pos(), true, "no store through a shared options pointer")
+	}
+}
